@@ -156,6 +156,19 @@ impl Ctx {
         for (k, v) in sig {
             m.insert(k.to_string(), v.clone());
         }
+        // the value-fidelity profile owns content differences: a stored value that reads back
+        // differently is C11's verdict
+        let (property, verdict) = if self.profile == "values" && property == "C05" && (verdict == "table-content-mismatch" || verdict == "wrong-result") && m.get("what").map_or(true, |w| w != "affected-count" && w != "count") {
+            let blob_as_text = match detail.split_once("unexpected") {
+                Some((missing, unexpected)) => missing.contains("x[") && unexpected.contains("'L") && !unexpected.contains("x["),
+                None => false,
+            };
+            let kind = if blob_as_text { "long-blob-read-as-text" } else { m.get("what").map(|s| s.as_str()).unwrap_or("rows") }.to_string();
+            m.insert("what".into(), kind);
+            ("C11", "stored-value-differs")
+        } else {
+            (property, verdict)
+        };
         let case = self.case_json(crash);
         self.out.violations.push(Violation {
             property: property.to_string(),
@@ -567,6 +580,9 @@ pub fn run_history(ctx: &mut Ctx, src: &mut Source, seed: u64) -> Option<History
     simdisk::reset_hash_counter();
     simdisk::install(root.to_str().unwrap_or("/dev/shm/vsim-x"), seed);
     install_panic_hook();
+    if ctx.crash.is_some() {
+        simdisk::with(|sd| sd.track_durable = true);
+    }
     let dbpath: PathBuf = root.join("db");
     let nsess = ctx.swarm.sessions.max(1);
     let mut live = match Live::create(&dbpath, &ctx.swarm.cfg, nsess) {
@@ -583,6 +599,9 @@ pub fn run_history(ctx: &mut Ctx, src: &mut Source, seed: u64) -> Option<History
     let mut step_idx = 0usize;
     let mut sched = Rng::new(mix(seed, 0x5C4ED));
     let mut rolled_back = false;
+    let mut ever_long = false;
+    let mut ddl_since_reopen: Vec<&'static str> = vec![];
+    let mut since_open: Vec<&'static str> = vec![];
     loop {
         if ctx.stop {
             break;
@@ -636,6 +655,9 @@ pub fn run_history(ctx: &mut Ctx, src: &mut Source, seed: u64) -> Option<History
             continue;
         }
 
+        if op_has_long(op) {
+            ever_long = true;
+        }
         let pred = model.predict(s, op);
         // which kinds of writes would a rollback undo? (signature of C07 verdicts)
         let undone_kinds: String = {
@@ -708,14 +730,15 @@ pub fn run_history(ctx: &mut Ctx, src: &mut Source, seed: u64) -> Option<History
             ("in_txn", in_txn_before.to_string()),
             ("features", feat.clone()),
             ("shape", stmt_shape(op, &pred)),
+            ("api", match op { Op::Bulk { api, .. } => format!("{:?}", api), Op::Insert { api, .. } => format!("{:?}", api), _ => "-".into() }),
             ("long_value", op_has_long(op).to_string()),
+            ("db_has_toast", ever_long.to_string()),
             (
-                "db_has_toast",
-                view_before
-                    .tables
-                    .values()
-                    .chain(model.committed.tables.values())
-                    .any(|t| t.rows.iter().any(|r| r.iter().any(is_long)))
+                "composite_index",
+                tname
+                    .as_ref()
+                    .and_then(|t| view_before.tables.get(t))
+                    .map_or(false, |t| t.indexes.iter().any(|i| i.cols.len() > 1) || matches!(op, Op::CreateIndex { index, .. } if index.cols.len() > 1))
                     .to_string(),
             ),
             ("rolled_back", rolled_back.to_string()),
@@ -785,6 +808,14 @@ pub fn run_history(ctx: &mut Ctx, src: &mut Source, seed: u64) -> Option<History
                             };
                             let mut sig = sig_base.clone();
                             sig.push(("indexed", indexed.to_string()));
+                            if let Op::Select { pred: Pred::And(a, b), .. } = op {
+                                let (mut ca, mut cb) = (vec![], vec![]);
+                                a.columns(&mut ca);
+                                b.columns(&mut cb);
+                                if indexed && ca.iter().any(|c| cb.contains(c)) {
+                                    sig.push(("pred_shape", "and-same-indexed-column".to_string()));
+                                }
+                            }
                             if matches!(op, Op::Count(_)) {
                                 ctx.violate("C05", "count-mismatch", &sig, format!("{}: {}", desc, m), None);
                             } else if content_ok && indexed {
@@ -860,6 +891,14 @@ pub fn run_history(ctx: &mut Ctx, src: &mut Source, seed: u64) -> Option<History
         if matches!(op, Op::Rollback | Op::RollbackTo(_)) && actual.is_ok() {
             rolled_back = true;
         }
+        if op.is_write() && actual.is_ok() && !since_open.contains(&op.kind()) {
+            since_open.push(op.kind());
+            since_open.sort();
+        }
+        if op.is_ddl() && actual.is_ok() && !ddl_since_reopen.contains(&op.kind()) {
+            ddl_since_reopen.push(op.kind());
+            ddl_since_reopen.sort();
+        }
         // ---- lifecycle bookkeeping
         if matches!(op, Op::CloseReopen | Op::DropReopen) && !effect_applied {
             // reopen failed: nothing more to do in this run
@@ -919,6 +958,9 @@ pub fn run_history(ctx: &mut Ctx, src: &mut Source, seed: u64) -> Option<History
                 let failed_stmt = pred.expected.is_err() || (fault_fired && !actual.is_ok());
                 let mut sig = sig_base.clone();
                 sig.push(("what", d.what.clone()));
+                if let Some(site) = panic_site_in(&d.detail) {
+                    sig.push(("site", site));
+                }
                 let (prop, verdict): (&str, &str) = if failed_stmt {
                     ("C06", if fault_fired { "effect-after-io-error" } else { "effect-after-error" })
                 } else {
@@ -927,7 +969,16 @@ pub fn run_history(ctx: &mut Ctx, src: &mut Source, seed: u64) -> Option<History
                             sig.push(("undone", undone_kinds.clone()));
                             ("C07", "rollback-state-mismatch")
                         }
-                        Op::Checkpoint | Op::PragmaCheckpoint | Op::CloseReopen | Op::DropReopen => ("C04", "lifecycle-state-mismatch"),
+                        Op::CloseReopen | Op::DropReopen if in_txn_before => {
+                            // dropping the handle with an open transaction must equal ROLLBACK (C07)
+                            sig.push(("undone", undone_kinds.clone()));
+                            ("C07", "rollback-state-mismatch")
+                        }
+                        Op::Checkpoint | Op::PragmaCheckpoint | Op::CloseReopen | Op::DropReopen => {
+                            sig.push(("since_open", since_open.join("+")));
+                            sig.push(("wal", ctx.swarm.cfg.wal.to_string()));
+                            ("C04", "lifecycle-state-mismatch")
+                        }
                         Op::Bulk { .. } => ("C43", "bulk-state-mismatch"),
                         o if o.is_ddl() => ("C21", "ddl-state-mismatch"),
                         _ => match d.what.as_str() {
@@ -941,9 +992,19 @@ pub fn run_history(ctx: &mut Ctx, src: &mut Source, seed: u64) -> Option<History
                     sig.push(("class", cls.as_str().to_string()));
                 }
                 ctx.violate(prop, verdict, &sig, format!("after {} -> {}: {}", desc, actual.brief(), d.detail), None);
+                if prop == "C04" && matches!(op, Op::CloseReopen | Op::DropReopen) && !ddl_since_reopen.is_empty() {
+                    // schema changes must survive reopening (C21)
+                    let mut sig2 = sig.clone();
+                    sig2.push(("ddl", ddl_since_reopen.join("+")));
+                    ctx.violate("C21", "ddl-not-persisted", &sig2, format!("after {} (DDL since the previous open: {}): {}", desc, ddl_since_reopen.join(", "), d.detail), None);
+                }
                 ctx.stop = true;
             }
             qrec = Some((plan, obs));
+        }
+        if matches!(op, Op::CloseReopen | Op::DropReopen) {
+            ddl_since_reopen.clear();
+            since_open.clear();
         }
         records.push(StepRecord { step: step.clone(), actual, q: qrec });
         step_idx += 1;
